@@ -38,6 +38,15 @@ fn scenario(name: &str, n: usize) -> i32 {
         assert!(ser.as_str().len() >= 2 * n);
         return 0;
     }
+    if name.starts_with("ttl_pretty_subject") {
+        // n statements with one and the same subject through the pretty Turtle serializer
+        use sophia_turtle::serializer::turtle::{TurtleConfig, TurtleSerializer};
+        let g: Vec<[SimpleTerm<'static>; 3]> = (0..n).map(|i| [iri(0, "s"), iri(0, "p"), iri(i, "o")]).collect();
+        let mut ser = TurtleSerializer::new_stringifier_with_config(TurtleConfig::new().with_pretty(true));
+        ser.serialize_graph(&g).unwrap();
+        assert!(ser.as_str().len() >= n);
+        return 0;
+    }
     let (base, pos) = match name.split_once(':') {
         Some((b, p)) => (b, p),
         None => (name, "o"),
